@@ -192,6 +192,7 @@ class State:
         self.fid = 0          # current frame id (0 = the analysed body; > 0 = an inlined callee)
         self.next_fid = 1
         self.frames = []      # stack of (caller body, caller fid, dest (root, path) | None, return target bb)
+        self.loop_entry = {}  # (fid, loop head bb, local) -> value on entry to the loop (havoc_loops only; whole-local values)
 
     def clone(self):
         s = State(self.body)
@@ -205,6 +206,7 @@ class State:
         s.excluded = dict(self.excluded)
         s.blocks = list(self.blocks)
         s.visits = collections.Counter(self.visits)
+        s.loop_entry = dict(self.loop_entry)
         return s
 
     # ---- memory
@@ -479,6 +481,8 @@ class SymEx:
                 info = loops[bb]
                 for l in info['locals']:
                     lr = self.loc(st, l)
+                    if (lr, ()) in st.mem:
+                        st.loop_entry[(st.fid, bb, l)] = st.mem[(lr, ())]
                     for k in [k for k in st.mem if k[0] == lr]:
                         del st.mem[k]
                     st.mem[(lr, ())] = ('loopvar', bb, l)
